@@ -158,8 +158,28 @@ def common_points(A, B):
             best = min(((abs(u - v), u) for u in ys for v in ys2), key=lambda t: t[0])
             y = best[1]
         v = Ti @ np.array([x, y, 1.0])
-        pts.append(v)
+        pts.append(_polish(np.asarray(A, dtype=complex), np.asarray(B, dtype=complex), v))
     return pts
+
+
+def _polish(A, B, v):
+    """Newton refinement of a common point of two conics (the roots of the resultant quartic can be accurate to 1e-5 only); simple
+    intersections converge quadratically, at multiple intersections the Jacobian is singular and the start value is kept."""
+    v = v / np.linalg.norm(v)
+    p0 = np.conj(v)
+    x = v
+    for _ in range(4):
+        F = np.array([x @ A @ x, x @ B @ x, p0 @ x - 1.0])
+        J = np.array([2 * A @ x, 2 * B @ x, p0])
+        try:
+            if np.linalg.cond(J) > 1e7:
+                return v
+            x = x - np.linalg.solve(J, F)
+        except np.linalg.LinAlgError:
+            return v
+    if not np.all(np.isfinite(x)) or np.linalg.norm(x - v) > 1e-3:
+        return v
+    return x
 
 
 def _on(M, x):
@@ -286,6 +306,38 @@ def g_line_pairs(ctx, rng, i):
     except Exception:
         return  # judged by the monitor
     _pair_check(ctx, comps, gv, hv, [gv, hv])
+    if i % 3 == 0:
+        # the same lines in float representatives of other magnitudes (as a user would type them, or as another call returned them), and
+        # the pair intersected with a circle in both argument orders
+        s1, s2 = gen.pick(rng, [100.0, -250.0, 37.5, 0.125]), gen.pick(rng, [100.0, 640.0, -3.5, 1.0])
+        gf, hf = gv * s1 + 0.0, hv * s2 + 0.0
+        cf = g.Conic.from_lines(g.Line(gf), g.Line(hf))
+        cf.is_degenerate
+        try:
+            _pair_check(ctx, cf.components, gv, hv, [gf, hf])
+        except Exception:
+            pass
+        circ = g.Circle(g.Point(*gen.coords(rng, (2,), 3, "int").tolist()), float(rng.integers(2, 6)))
+        for f_ in (lambda: cf.intersect(circ), lambda: circ.intersect(cf)):
+            try:
+                f_()
+            except Exception:
+                pass
+    if i % 4 == 1:
+        # the pair moved by an integer affine map after its components were asked for: the moved conic splits into the moved lines
+        M = np.eye(3, dtype=int)
+        M[:2, :2] = gen.invertible_int_matrix(rng, 2, 2)
+        M[:2, 2] = gen.coords(rng, (2,), 5, "int")
+        Mi = np.round(np.linalg.inv(M) * round(abs(np.linalg.det(M)))).astype(int)  # adjugate up to sign: lines map with M^-T
+        try:
+            moved = g.Transformation(M) * c
+            _pair_check(ctx, moved.components, Mi.T @ gv, Mi.T @ hv, [gv, hv, M])
+            shifted = c + g.Point(*M[:2, 2].tolist())
+            T = np.eye(3, dtype=int)
+            T[:2, 2] = -M[:2, 2]
+            _pair_check(ctx, shifted.components, T.T @ gv, T.T @ hv, [gv, hv, M[:2, 2]])
+        except Exception as e:
+            ctx.judge("components.pair", False, [gv, hv, M], what=f"components of the transformed line pair raised {type(e).__name__}: {e}", op="components after a transformation")
     if i % 7 == 0:
         # the dual version: a point pair
         d = g.Conic(np.outer(gv, hv) + np.outer(hv, gv), is_dual=True)
@@ -317,6 +369,14 @@ def g_plane_pairs(ctx, rng, i):
     except Exception:
         return
     _pair_check(ctx, comps, ev, fv, [ev, fv])
+    if i % 3 == 0:
+        s1, s2 = gen.pick(rng, [100.0, -250.0, 37.5, 0.125]), gen.pick(rng, [100.0, 640.0, -3.5, 1.0])
+        qf = g.Quadric.from_planes(g.Plane(ev * s1 + 0.0), g.Plane(fv * s2 + 0.0))
+        qf.is_degenerate
+        try:
+            _pair_check(ctx, qf.components, ev, fv, [ev * s1, fv * s2])
+        except Exception:
+            pass
 
 
 def g_irreducible(ctx, rng, i):
